@@ -2,6 +2,7 @@ package main
 
 import (
 	"fmt"
+	"sync"
 	"math"
 	"reflect"
 	"sort"
@@ -62,6 +63,33 @@ func (c *encCtx) record(fp string, v reflect.Value) {
 	}
 	c.sp[fp] = text
 	c.val[fp] = v
+}
+
+// typeKey: the identity of a struct type on the wire.  It is Type.String() — unless two DISTINCT types
+// of this process print alike (function-local types of the same name, same-named types of different
+// packages): then the later ones get a numeric suffix.  The model keys rule sets and the type cache by it.
+var (
+	typeKeyMu   sync.Mutex
+	typeKeySeen = map[string][]reflect.Type{}
+)
+
+func typeKey(t reflect.Type) string {
+	s := t.String()
+	typeKeyMu.Lock()
+	defer typeKeyMu.Unlock()
+	for i, u := range typeKeySeen[s] {
+		if u == t {
+			if i == 0 {
+				return s
+			}
+			return s + "#" + strconv.Itoa(i)
+		}
+	}
+	typeKeySeen[s] = append(typeKeySeen[s], t)
+	if n := len(typeKeySeen[s]); n > 1 {
+		return s + "#" + strconv.Itoa(n-1)
+	}
+	return s
 }
 
 func lenPref(s string) string { return strconv.Itoa(len(s)) + ":" + s }
@@ -179,8 +207,8 @@ func encodeValueCtx1(v reflect.Value, c *encCtx) (string, string) {
 		return N("map", args...), fp
 	case reflect.Struct:
 		t := v.Type()
-		args := []string{X(t.String()), X(t.Name()), B(t == timeType)}
-		fp := "T" + lenPref(t.String()) + "{"
+		args := []string{X(typeKey(t)), X(t.Name()), B(t == timeType)}
+		fp := "T" + lenPref(typeKey(t)) + "{"
 		if t == timeType {
 			// opaque: one synthetic field carrying zero-ness
 			nz := !v.IsZero()
